@@ -116,6 +116,12 @@ func (a *TransferAuthorization) ValidateBasic() error {
 			return errorsmod.Wrap(ibcerrors.ErrInvalidCoins, "spend limit cannot be nil")
 		}
 
+		for _, coin := range allocation.SpendLimit {
+			if coin.Amount.IsNil() {
+				return errorsmod.Wrapf(ibcerrors.ErrInvalidCoins, "spend limit amount cannot be nil for denom %s", coin.Denom)
+			}
+		}
+
 		if err := allocation.SpendLimit.Validate(); err != nil {
 			return errorsmod.Wrapf(ibcerrors.ErrInvalidCoins, "invalid spend limit: %s", err.Error())
 		}
